@@ -36,6 +36,13 @@ def model_circuits():
 
     for k, tags, c in corpus("quick"):
         yield f"corpus::{k}", c, []
+    # wide gates (the writer may wrap long port lists) and combinational loops (lint does not reject them)
+    for t in ("and", "xnor", "nor"):
+        for k in (7, 8, 9, 16, 17):
+            ins = [f"i{j}" for j in range(k)]
+            yield f"wide-{t}{k}", build({**{i_: ("input", []) for i_ in ins}, f"{t}_o": (t, ins), "p": ("not", [f"{t}_o"])}, outputs=[f"{t}_o", "p"], name="wide"), []
+    yield "sr-latch", build({"s": ("input", []), "r": ("input", []), "e": ("input", []), "q": ("nor", ["r", "qn"]), "qn": ("nor", ["s", "q"]), "o": ("and", ["q", "e"])}, outputs=["o", "qn"], name="latch"), []
+    yield "loop-through-three-gates", build({"a": ("input", []), "g1": ("nand", ["a", "g3"]), "g2": ("not", ["g1"]), "g3": ("or", ["g2", "a"]), "o": ("buf", ["g2"])}, outputs=["o"], name="ring"), []
     yield "const-output", build({"a": ("input", []), "k": ("1", []), "z": ("0", []), "g": ("and", ["a", "k"])}, outputs=["k", "g", "z"], name="co"), []
     yield "x-constant", build({"a": ("input", []), "u": ("x", []), "g": ("or", ["a", "u"])}, outputs=["g"], name="xc"), []
     yield "undriven-gate", build({"a": ("input", []), "f": ("buf", []), "g": ("nand", ["a", "f"])}, outputs=["g"], name="ud"), []
@@ -86,8 +93,34 @@ def compare(c, d, identical):
         return {"problem": "free signals differ (a net became undriven or driven)", "free": sorted(fd), "expected": sorted(fc)}
     if has_x:
         return None
+    if not c.graph.is_dag() or not d.graph.is_dag():
+        # cyclic: same consistent valuations, projected onto the original nodes (brute force over all node values)
+        from ..satpipe import consistent_valuations
+
+        if len(d.nodes()) > 14:
+            return None if identical else {"problem": "cyclic circuit too large to compare after a non-identical round trip", "nodes": len(d.nodes())}
+        nodes = sorted(c.nodes())
+        if not set(nodes) <= set(d.nodes()):
+            return {"problem": "nodes lost in the round trip", "missing": sorted(set(nodes) - set(d.nodes()))}
+        pc = {tuple(v[n] for n in nodes) for v in consistent_valuations(c)}
+        pd = {tuple(v[n] for n in nodes) for v in consistent_valuations(d)}
+        return None if pc == pd else {"problem": "consistent valuations of the cyclic circuit differ after the round trip", "only_original": len(pc - pd), "only_read_back": len(pd - pc)}
+    if len(fc) > 10:
+        if identical:
+            return None  # an identical graph computes the same function; too wide to enumerate
+        # wide gates through the assign style: weight 0 / 1 / 2 / n-1 / n input vectors
+        fl = sorted(fc)
+        vecs = [dict.fromkeys(fl, False), dict.fromkeys(fl, True)]
+        for i_ in range(len(fl)):
+            vecs.append({**dict.fromkeys(fl, False), fl[i_]: True})
+            vecs.append({**dict.fromkeys(fl, True), fl[i_]: False})
+            if i_ + 1 < len(fl):
+                vecs.append({**dict.fromkeys(fl, False), fl[i_]: True, fl[i_ + 1]: True})
+        assign_iter = vecs
+    else:
+        assign_iter = assignments(sorted(fc))
     obs = sorted(c.outputs() | c.filter_type("bb_input"))
-    for a in assignments(sorted(fc)):
+    for a in assign_iter:
         vc, vd = simulate(c, a), simulate(d, a)
         for n in obs:
             if vc[n] != vd[n]:
